@@ -70,6 +70,7 @@ def run(ctx):
     for _ in range(ctx.n(30000, 1500000)):
         strings.append(spell(rand_eff(rng), rng))
     strings += core.singletons("4", rng, ctx.n(400, 6000))
+    strings += core.special("4", rng, ctx.n(5000, 100000))
     # all base-only vectors of a slice (thorough: all 104,976)
     if ctx.tier == "thorough":
         strings += [render("4", a) for a in enum.all_base("4")]
@@ -77,6 +78,7 @@ def run(ctx):
         strings += [render("4", a) for i, a in enumerate(enum.all_base("4")) if i % 23 == ctx.seed % 23]
     for i in range(0, len(strings), 200000):
         scoring.check_scores(ctx, "4", strings[i:i + 200000], "v4", slots=("base",))
+    scoring.extra_probes(ctx, "4", strings, "v4")
     if ctx.tier == "thorough" and ctx.scale == 1:
         n = 0
         for chunk in quotient_chunks(rng):
